@@ -53,6 +53,28 @@ Theorem C19_find_line_counts_line_starts : forall s off,
   S (find_line s off) = count_le (lines s) (clamp_pos s off).
 Proof. exact find_line_counts_newlines. Qed.
 
+(* Line/column -> offset is the inverse of find_line_col on character boundaries. *)
+Theorem C19_line_col_roundtrip : forall s off, boundary s off -> offset_of s (find_line_col s off) = off.
+Proof. exact line_col_roundtrip. Qed.
+
+(* Every position produced from an offset on a character boundary denotes a position of the document: the line
+   exists, it has at least `column` characters left, and the position lies inside that line's span.  An offset
+   past the end of the file is resolved like the end of the file (which is a boundary). *)
+Theorem C19_positions_in_document : forall s off, boundary s off -> in_document s (find_line_col s off).
+Proof. exact positions_in_document. Qed.
+
+Theorem C19_positions_past_end : forall s off, blen s <= off ->
+  find_line_col s off = find_line_col s (blen s) /\ boundary s (blen s).
+Proof. exact positions_past_end. Qed.
+
+(* What find_line_col counts is exactly the text between the start of the line containing the offset and the
+   offset: the characters that precede the offset on its line. *)
+Theorem C19_counted_prefix_is_line_segment : forall s off, boundary s off ->
+  exists kb k, (kb <= k <= length s)%nat /\ off = blen (firstn k s) /\
+    line_begin s (find_line s off) = blen (firstn kb s) /\
+    counted_prefix s off = firstn (k - kb) (skipn kb s).
+Proof. exact counted_prefix_is_line_segment. Qed.
+
 (* The column the implementation reports (number of scalar values) IS the protocol's UTF-16 column exactly
    when no astral character is among the characters it counted; otherwise it is too small. *)
 Theorem C19_col_utf16_eq_scalar_iff_bmp : forall s off,
